@@ -224,6 +224,12 @@ theorem track_frame {s s1 : State} {m x : Nat} (t : TrackPost s s1 m x) (hx : x 
     · by_cases h2 : i = x
       · subst h2; rw [t.gx] at hd; exact .inl hd
       · rw [t.go i h1 h2] at hd; exact .inl hd
+  flags := FlagRel.of_same (fun i => by
+    by_cases h1 : i = m
+    · subst h1; rw [t.gm]; exact ⟨rfl, rfl, rfl⟩
+    · by_cases h2 : i = x
+      · subst h2; rw [t.gx]; exact ⟨rfl, rfl, rfl⟩
+      · rw [t.go i h1 h2]; exact ⟨rfl, rfl, rfl⟩)
 
 /-! ## clearSources -/
 
@@ -527,5 +533,9 @@ theorem startRun_frame {p : Prog} {s s4 : State} {m : Nat} (h : InvR p s) (t : S
   effD i hk hd := by
     have him : i ≠ m := by intro e; subst e; rw [hkm] at hk; cases hk
     rw [t.go i him] at hd; exact .inl hd
+  flags := FlagRel.of_same (fun i => by
+    by_cases h1 : i = m
+    · subst h1; rw [t.gm]; exact ⟨rfl, rfl, rfl⟩
+    · rw [t.go i h1]; exact ⟨rfl, rfl, rfl⟩)
 
 end Leptos.Reactive
